@@ -28,6 +28,7 @@
 //   announce <chunk> <E_s> <peer> <ttl_s> <ep01> <asg01>   Node::handle_announce
 //   obs <chunk>
 //        -> r=<0|1|-> sh=<abs ns|-> ct=<peer:abs ns,..|-> ck=<abs ns|-> pf=<abs wall ns:attempts|-> fp=<same|chg>
+//           (announce appends  all=<chunk:abs wall ns:attempts,...|->  the whole pending-fetch table)
 //           (sh/ct/ck: live records only, steady-clock deadlines; fp: did anything in the node's
 //            chunk store, DHT, manifest cache, swarm plans or pending-fetch table change)
 //   tick                     Node::tick -> pf=<chunk:abs wall ns:attempts,...|->
@@ -367,7 +368,8 @@ std::string do_op(const std::vector<std::string>& t) {
         const int before = node->reputation_.score(sender);
         test::NodeTestAccess::handle_announce(*node, p, sender, protocol::kCurrentMessageVersion);
         const int after = node->reputation_.score(sender);
-        return obs_line(after > before ? "1" : "0", id);
+        // an accepted announce runs the fetch scheduler over *all* pending entries: show them all
+        return obs_line(after > before ? "1" : "0", id) + " all=" + pending_list().substr(3);
     }
     if (op == "tick") {
         node->tick();
